@@ -176,15 +176,15 @@ func c14W4(r *core.R) {
 	cancels := m.callsWhere(xg, func(n *c14Node, call *ast.CallExpr) bool {
 		return m.isField(xg, xg.canon(n.ctx, call.Fun, n), m.fCancel)
 	})
-	waits := m.callsWhere(xg, func(n *c14Node, call *ast.CallExpr) bool {
-		return m.isMethodOn(xg, xg.canon(n.ctx, call, n), m.fWG, "sync.WaitGroup", "Wait")
-	})
-	var cancelNodes, waitNodes []*c14Node
+	waitNodes := m.awaits(xg)
+	var cancelNodes []*c14Node
 	for _, x := range cancels {
 		cancelNodes = append(cancelNodes, x.n)
 	}
-	for _, x := range waits {
-		waitNodes = append(waitNodes, x.n)
+	type waitSite struct{ call ast.Node }
+	var waits []waitSite
+	for _, n := range waitNodes {
+		waits = append(waits, waitSite{n.ast})
 	}
 	// deferred calls run when Close returns, after every plain statement and in reverse order of registration
 	var dCancel, dWait, dOther []*c14Node
@@ -198,7 +198,7 @@ func c14W4(r *core.R) {
 			dOther = append(dOther, d)
 		case m.isField(xg, xg.canon(d.ctx, dc.Fun, d), m.fCancel):
 			dCancel = append(dCancel, d)
-		case m.isMethodOn(xg, xg.canon(d.ctx, dc, d), m.fWG, "sync.WaitGroup", "Wait"):
+		case m.isWaitCall(xg, d, dc):
 			dWait = append(dWait, d)
 		default:
 			dOther = append(dOther, d)
@@ -228,7 +228,7 @@ func c14W4(r *core.R) {
 	case len(cancels) == 0:
 		r.Bad(c, m.closeFn.Decl.Pos(), "Close never calls the ordering's cancel function: a producer blocked in its send is not released and the wait for it never ends")
 	case len(waits) == 0:
-		r.Bad(c, m.closeFn.Decl.Pos(), "Close does not wait for the producer goroutine (`….%s.Wait()`): the goroutine may still be running when Close returns", m.fWG.Name())
+		r.Bad(c, m.closeFn.Decl.Pos(), "Close does not wait for the producer goroutine (`%s`): the goroutine may still be running when Close returns", m.waitText())
 	case xg.reach([]*c14State{xg.entry}, c14StopAt(cancelNodes...), nil).hasNode(waitNodes...):
 		r.Bad(c, waits[0].call.Pos(), "`%s` is not preceded by `%s` on every path: Close waits for a producer that is blocked in its send until somebody cancels — deadlock when Close is called before the iteration is exhausted", src(fs, waits[0].call), src(fs, cancels[0].call))
 	case len(xg.reach([]*c14State{xg.entry}, c14StopAt(waitNodes...), nil).exits()) > 0:
@@ -239,54 +239,12 @@ func c14W4(r *core.R) {
 
 	// (e) producer goroutine: one go statement, Add(1) before it, deferred close of the channel and release of the wait group
 	c = "wg-add@" + ctorName
-	adds := m.callsWhere(cg, func(n *c14Node, call *ast.CallExpr) bool {
-		return m.isMethodOn(cg, cg.canon(n.ctx, call, n), m.fWG, "sync.WaitGroup", "Add")
-	})
-	var addNodes []*c14Node
-	for _, a := range adds {
-		addNodes = append(addNodes, a.n)
-	}
-	inLoop := false
-	if m.goNode != nil {
-		inLoop = cg.reach(c14Succs(cg.statesOf(m.goNode), nil), nil, nil).hasNode(m.goNode)
-	}
-	switch {
-	case m.goNode == nil || m.pg == nil || inLoop:
-		r.Bad(c, m.ctor.Decl.Pos(), "expected exactly one go statement, outside any loop, starting a closure or a function of this module in %s (found %d go statements): visited set and path are owned by a single producer", ctorName, len(cg.gos))
-	case len(adds) == 0:
-		r.Bad(c, m.goNode.pos(), "no `….%s.Add(1)` before the go statement: the deferred Done makes the counter negative (panic) and Close does not wait for the producer", m.fWG.Name())
-	case len(adds) != 1 || func() bool {
-		v := cg.canon(adds[0].n.ctx, adds[0].call, adds[0].n)
-		if len(v.args) != 1 || v.args[0].k != 'c' {
-			return true
-		}
-		i, ok := constant.Int64Val(constant.ToInt(v.args[0].cv))
-		return !ok || i != 1
-	}():
-		r.Bad(c, adds[0].call.Pos(), "`%s` does not add exactly 1, once, for the single producer goroutine: Wait never returns (or panics)", src(fs, adds[0].call))
-	case cg.reach([]*c14State{cg.entry}, c14StopAt(addNodes...), nil).hasNode(m.goNode):
-		r.Bad(c, adds[0].call.Pos(), "`%s` does not precede the go statement on every path: Close may run Wait before the counter was raised", src(fs, adds[0].call))
-	default:
-		r.OK(c, adds[0].call.Pos(), "`%s` lies on every path to the only go statement of %s", src(fs, adds[0].call), ctorName)
-	}
+	m.completionArmed(r, c)
 
 	c = "goroutine-defers@producer"
 	pd := m.producerDefers()
-	closeDefers, doneDefers, closeCalls := pd.closeDefers, pd.doneDefers, pd.closeCalls
-	if m.pg != nil {
-		pg := m.pg
-		escapes := func(ds []*c14Node) bool {
-			return len(ds) == 0 || len(pg.reach([]*c14State{pg.entry}, c14StopAt(ds...), nil).exits()) > 0
-		}
-		switch {
-		case escapes(doneDefers):
-			r.Bad(c, pg.root.fn.pos(), "the producer goroutine does not defer `….%s.Done()` before its first way out: Close blocks forever in Wait", m.fWG.Name())
-		case escapes(closeDefers):
-			r.Bad(c, pg.root.fn.pos(), "the producer goroutine does not defer `close(….%s)` before its first way out: after the last id Next blocks in its select until somebody cancels — the iteration never ends on its own", m.fOut.Name())
-		default:
-			r.OK(c, pg.root.fn.pos(), "the producer (%s) defers ….%s.Done() and close(….%s) on every path before it can return: both run on every exit of the goroutine", pg.root.fn.name, m.fWG.Name(), m.fOut.Name())
-		}
-	}
+	closeCalls := pd.closeCalls
+	m.completionSignalled(r, c)
 
 	c = "close-sites"
 	badClose := false
@@ -349,18 +307,34 @@ func (m *c14Model) receives(r *core.R) {
 		sel := m.selectOf(g, n.ctx, as, n)
 		// where the received value becomes available
 		var start []*c14State
+		recvAt := n // the node at which the received value is assigned (the head of its case inside a select)
 		if sel != nil {
 			if h := m.caseHead(g, n.ctx, sel.own); h != nil {
 				start = g.statesOf(h)
+				recvAt = h
 			}
 		} else {
 			start = c14Succs(g.statesOf(n), nil)
 		}
 		// closed-channel detection: `v, ok := <-out; ok` or `v := <-out; v != 0`
-		rv := g.canon(n.ctx, ue, n)
+		rv := g.canon(n.ctx, ue, recvAt)
 		open := c14Edges{} // edges on which the channel is known not to be closed
+		after := g.reach(start, nil, nil)
 		for _, a := range m.atoms(g) {
+			// the atom as seen on the paths that come from the receive (a variable declared before the select and
+			// assigned by the case is the received value there, whatever it is on the other cases' paths)
+			var from []*c14State
+			for _, s := range g.byNode[a] {
+				if after[s] {
+					from = append(from, s)
+				}
+			}
+			if len(from) == 0 {
+				continue
+			}
+			g.fromStates = map[*c14Node][]*c14State{a: from}
 			v := m.atomVal(g, a)
+			g.fromStates = nil
 			if v.k == 't' && v.idx == 1 && v.x.key == rv.key {
 				open[a] = 1
 			}
